@@ -1,0 +1,48 @@
+// Verification hooks (used only by external verification harnesses).
+//
+// With SPECTRA_VERIF_HOOKS undefined (the default) this header defines one macro
+// that expands to nothing, so the library is unchanged.  With the guard defined,
+// SPECTRA_VERIF_EVENT reports a tag, the address of the reporting object and two
+// integers to an observer installed by the harness for the current thread.
+
+#ifndef SPECTRA_VERIF_HOOKS_H
+#define SPECTRA_VERIF_HOOKS_H
+
+#ifdef SPECTRA_VERIF_HOOKS
+
+namespace Spectra {
+namespace verif {
+
+struct Observer
+{
+    virtual void event(const char* tag, const void* obj, long a, long b) = 0;
+    virtual ~Observer() {}
+};
+
+// One observer slot per thread; null unless a harness installs one
+inline Observer*& observer()
+{
+    static thread_local Observer* slot = nullptr;
+    return slot;
+}
+
+}  // namespace verif
+}  // namespace Spectra
+
+#define SPECTRA_VERIF_EVENT(tag, obj, a, b)                                            \
+    do                                                                                 \
+    {                                                                                  \
+        if (::Spectra::verif::observer())                                              \
+            ::Spectra::verif::observer()->event(tag, obj, (long) (a), (long) (b));     \
+    } while (0)
+
+#else
+
+#define SPECTRA_VERIF_EVENT(tag, obj, a, b) \
+    do                                      \
+    {                                       \
+    } while (0)
+
+#endif  // SPECTRA_VERIF_HOOKS
+
+#endif  // SPECTRA_VERIF_HOOKS_H
